@@ -106,6 +106,18 @@ Theorem c06_not_premature :
 Proof. exact not_premature. Qed.
 Print Assumptions c06_not_premature.
 
+(* a (re)connect attempt clears the flag before the leader is dialled: while the attempt is under way -
+   stalled or failing at ANY stage of the handshake (dial, AUTH, SERVER, checksum probes, REPLCONF, AOF),
+   the leader acknowledging more writes, the connection dropped again, further attempts starting - the
+   follower does not report caught up (both modes; the proxy parks the handshake at each stage and the
+   harness compares HEALTHZ / SERVER caught_up with this) *)
+Theorem c06_reconnecting_not_caught_up :
+  forall digest md5 digest_eqb csz st st0 app md l f es,
+  Forall handshake_event es ->
+  f_cup (snd (run digest md5 digest_eqb csz st st0 app md (step digest md5 digest_eqb csz st st0 app md (l, f) EBegin) es)) = false.
+Proof. exact reconnecting_not_caught_up. Qed.
+Print Assumptions c06_reconnecting_not_caught_up.
+
 (* ---- concrete instances: identity "MD5" (trivially injective), toy command semantics ---- *)
 Definition idm (b : bytes) : bytes := b.
 Definition mk (file : file) (aofsz : Z) : fol toy_st :=
